@@ -562,6 +562,10 @@ func judgeProxy(w *proxyWorld, res *Result) {
 		judgeSequential(w, res)
 	case "coal", "trouble":
 		judgeConcurrent(w, res)
+	case "range":
+		judgeRange(w, res)
+	case "relay":
+		judgeRelay(w, res)
 	}
 	for _, ex := range w.exch {
 		if ex.Complete {
@@ -679,7 +683,8 @@ func judgeConcurrent(w *proxyWorld, res *Result) {
 			continue
 		}
 		res.Evals++
-		for ph, os := range phases {
+		for _, ph := range phaseStart {
+			os := phases[ph]
 			allowed := 1
 			if disconnects > 0 {
 				allowed = 1 + disconnects
